@@ -306,6 +306,75 @@ example :
   decide +kernel
 
 
+/-! ## the write model folded over every history -/
+
+section Fold
+open Cfdp.Dest.Effect
+
+/-- the packet an operation hands to the handler (`none` for everything but `state_machine(pdu)`) -/
+def pktOf : DOp → Option Pdu
+  | .sm pkt => pkt
+  | _ => none
+
+/-- `v` is obtained from `o` by one allowed step per packet, in order (`Allowed`: unchanged; gone; this
+packet's File Data written at its offset into the file as it was; emptied by this packet's Metadata) -/
+def Reach : Option Node → List (Option Pdu) → Option Node → Prop
+  | o, [], v => v = o
+  | o, pk :: rest, v => ∃ m, Allowed o pk m ∧ Reach m rest v
+
+/-- **The destination file is the write model folded over the history.**  For every history of user, peer
+and filestore operations — any PDUs in any order, timers, cancel requests, resets, table changes,
+injected rejections —, from any state with a well-formed filestore, and for every path: what the
+filestore has at that path in the end is obtained from what it had at the start by one `Allowed` step
+per operation, in order — i.e. by the File Data PDUs handed to the handler, each written (or not) at
+its own offset into the file as it was, by Metadata PDUs emptying it, and by deletions; nothing else
+ever changes a file. -/
+theorem C05_history_effect (env : Env) (ops : List DOp) (p : String) : ∀ (s : DestSt), Fs.C17.WF s.fs →
+    Reach (s.fs.get p) (ops.map pktOf) ((runOps env s ops).fs.get p) := by
+  induction ops with
+  | nil => intro s _; rfl
+  | cons op ops ih =>
+    intro s hw
+    obtain ⟨hw', ha⟩ := C05_op_effect env op s p hw
+    simp only [runOps, List.foldl_cons, List.map_cons, Reach]
+    refine ⟨_, ?_, ih _ hw'⟩
+    cases op <;> exact ha
+
+/-- a history that hands the handler no File Data and no Metadata PDU leaves every file as it was — or deletes it
+(cancel disposition); it never creates or changes content -/
+theorem C05_history_without_data (env : Env) (ops : List DOp) (p : String) (s : DestSt) (hw : Fs.C17.WF s.fs)
+    (hno : ∀ op ∈ ops, (∀ off data, ¬ IsFd (pktOf op) off data) ∧ ¬ IsMd (pktOf op)) :
+    (runOps env s ops).fs.get p = s.fs.get p ∨ (runOps env s ops).fs.get p = none := by
+  have h := C05_history_effect env ops p s hw
+  have key : ∀ (l : List (Option Pdu)) (o v : Option Node),
+      (∀ pk ∈ l, (∀ off data, ¬ IsFd pk off data) ∧ ¬ IsMd pk) → Reach o l v → v = o ∨ v = none := by
+    intro l
+    induction l with
+    | nil => intro o v _ hr; exact Or.inl hr
+    | cons pk rest ih =>
+      intro o v hl hr
+      obtain ⟨m, ha, hr'⟩ := hr
+      have hpk := hl pk (by simp)
+      have hm : m = o ∨ m = none := by
+        rcases ha with ha | ha | ⟨old, off, data, hfd, _, _⟩ | ⟨hmd, _⟩
+        · exact Or.inl ha
+        · exact Or.inr ha
+        · exact absurd hfd (hpk.1 off data)
+        · exact absurd hmd hpk.2
+      have := ih m v (fun q hq => hl q (by simp [hq])) hr'
+      rcases this with h1 | h1
+      · rcases hm with h2 | h2
+        · exact Or.inl (h1.trans h2)
+        · exact Or.inr (h1.trans h2)
+      · exact Or.inr h1
+  exact key _ _ _ (by
+    intro pk hpk
+    simp only [List.mem_map] at hpk
+    obtain ⟨op, hop, rfl⟩ := hpk
+    exact hno op hop) h
+
+end Fold
+
 end AllHistories
 
 end Cfdp.C05
